@@ -53,7 +53,18 @@ Build(t, k, sites, kinds, decl, ps, via) ==
 RECURSIVE RunAll(_, _, _)
 RunAll(T, ops, i) == IF i > Len(ops) THEN T ELSE RunAll(Apply(T, ops[i]).st, ops, i + 1)
 
-Init == \E t \in (IF SvcSubset = {} THEN ServiceTypes ELSE SvcSubset), k \in 0..MaxIfs, decl \in {"none", "same", "other"},
+\* node configurations: every node type with and without a site (required for Server / VM / Container), alone, next to
+\* a valid node, and with the site cleared after creation
+NodeTypesC == DOMAIN NodeConstraints \ {"Facility"}
+NodeCfgs ==
+    UNION {{ << [op |-> "AddNode", name |-> "n1", site |-> s, ntype |-> nt, rp |-> <<>>] >>,
+             << [op |-> "AddNode", name |-> "n0", site |-> "S1", ntype |-> "VM", rp |-> <<>>],
+                [op |-> "AddNode", name |-> "n1", site |-> s, ntype |-> nt, rp |-> <<>>] >>,
+             << [op |-> "AddNode", name |-> "n1", site |-> "S1", ntype |-> nt, rp |-> <<>>],
+                [op |-> "SetProp", p |-> "n1", kind |-> "sp", pname |-> "Site", val |-> s] >> } : s \in {"", "S1"}, nt \in NodeTypesC}
+
+Init == \/ \E b \in NodeCfgs : path = b /\ st = RunAll(Empty, b, 1) /\ lastop = [op |-> "Init"] /\ chg = FALSE
+        \/ \E t \in (IF SvcSubset = {} THEN ServiceTypes ELSE SvcSubset), k \in 0..MaxIfs, decl \in {"none", "same", "other"},
            ps \in PropSets, via \in {"ctor", "connect"} :
           \E sites \in RG(k), kinds \in KindSeqs(k) :
             /\ path = Build(t, k, sites, kinds, decl, ps, via)
